@@ -42,6 +42,12 @@ def tamperings(rng, lvl, variant, sig):
             ha0=d0["hc0"], ha1=d0["hc1"], hc0=d0["ha0"], hc1=d0["ha1"])
         add("swap(m01,m10)", "alters", m01=d0["m10"], m10=d0["m01"])
         add("swap(columns)", "alters", m00=d0["m01"], m01=d0["m00"], m10=d0["m11"], m11=d0["m10"])
+    # re-encoding of the challenge through the other branch of the final comparison: the same kernel subgroup
+    # <P + cQ> = <Q + c^-1 P> (c odd), so every validity check still passes; only the comparison can reject it
+    if variant == "dim2" and d0["chall_b"] == 0 and d0["chall"] % 2 == 1:
+        add("chall_b=1 re-encoding (chall := chall^-1 mod 2^f)", "alters", chall_b=1, chall=pow(d0["chall"], -1, 2 ** c["f"]))
+    if variant == "heur" and d0["hint_b"] == 0 and d0["x"] % 2 == 1:
+        add("hint_b=1 re-encoding (x := x^-1 mod 2^len)", "alters", hint_b=1, x=pow(d0["x"], -1, 2 ** c["hc"]))
     p = c["p"]
     # E_aux -> other / isomorphic curves
     add("E_aux.A+1", "alters", Are=(d0["Are"] + 1) % p)
@@ -103,42 +109,114 @@ def fit(lvl, variant, sig, kv):
     return vc.sig_tokens(variant, d)
 
 
-def valid_hint_constructions(ctx, drivers, honest, rng, quick):
-    """secret-free constructions whose kernel points all have full order: an invertible response matrix, E_aux := pk
-    curve with the pk hints, and the *correct* public hints of E_chall (computed with the library's own
-    ec_curve_to_basis_2f_to_hint through the driver op `hints`). The kernel is then a basis on both factors but not
-    isotropic; the challenge is re-fitted twice. Returns Runner-style results."""
-    out = []
+# ---------------------------------------------------------------------------------------------------------------
+# kernel families with valid public hints: for each of the kernel-order tests, the response shapes that make exactly
+# that point trivial / short while the other points keep full order — a verifier that skips one test is hit by its family.
+def dim2_families(k):
+    """(label, (m00, m01, m10, m11)); columns P' = (m00, m10), Q' = (m01, m11) in the canonical basis of E_chall[2^k]"""
+    return [("T1.P1=O first column zero [[0,5],[0,3]]", (0, 5, 0, 3)),
+            ("T1.P1=O first column zero [[0,0],[0,1]]", (0, 0, 0, 1)),
+            ("T2.P1=O second column zero [[3,0],[5,0]]", (3, 0, 5, 0)),
+            ("T1m2.P1=O equal columns [[3,3],[5,5]]", (3, 3, 5, 5)),
+            ("T1.P1 short: first column even [[2,5],[4,3]]", (2, 5, 4, 3)),
+            ("T2.P1 short: second column even [[3,2],[5,4]]", (3, 2, 5, 4)),
+            ("T1m2.P1 short: columns congruent mod 2 [[3,5],[5,7]]", (3, 5, 5, 7)),
+            ("T1.P1 order 2: [[2^(k-1),1],[0,1]]", (2 ** (k - 1), 1, 0, 1)),
+            ("invertible non-isotropic [[3,1],[1,2]]", (3, 1, 1, 2))]
+
+
+def heur_families(lvl, trl):
+    """compressed responses of the heuristic variant: mat00 = b0, mat01 = d0, mat10 = 2^n b1 + (b0 x mod 2^a) + 2^a c0, …"""
+    return [("T1.P1=O first column zero", dict(b0=0, b1=0, c0=0, d0=1, d1=0, e0=0)),
+            ("T2.P1=O second column zero", dict(b0=1, b1=0, c0=0, d0=0, d1=0, e0=0)),
+            ("T1m2.P1=O equal columns", dict(b0=1, b1=3, c0=0, d0=1, d1=3, e0=0)),
+            ("T1.P1 short: first column even", dict(b0=2, b1=2, c0=0, d0=1, d1=0, e0=0)),
+            ("invertible non-isotropic", dict(b0=1, b1=0, c0=0, d0=2, d1=1, e0=0))]
+
+
+def _hints(exe, are, aim, f):
+    st, o, err = vc.run_lines(exe, ["hints %s %s %d" % (vc.hx(are), vc.hx(aim), f)], 120)
+    if st != "ok" or not o:
+        return None
+    return int(o[0].split()[1]), int(o[0].split()[2])
+
+
+def family_constructions(ctx, drivers, honest, rng, quick, levels=None):
+    """Secret-free constructions with *valid* public hints (library basis routines through the driver op `hints`):
+    kernel families x E_aux in {pk curve + pk hints, y^2 = x^3 + 6x^2 + x + its hints, the same with a wrong aux hint}
+    x two_resp_length x starting challenge in {precomputed H(0 || j(pk) || m) for a degenerate commitment, random};
+    the challenge is then re-fitted to the tapped hash up to two more times. Returns Runner-style results."""
+    jobs = []
     for (lvl, variant), hs in sorted(honest.items()):
-        if variant != "dim2":
+        if levels and lvl not in levels:
             continue
         c = vc.CONST[lvl]
+        exe = drivers[(lvl, variant)]
         pk = hs[0]["pk"]; pd = vc.pk_dict(pk)
-        k = c["resp"] + 2
-        mats = [(3, 1, 1, 2), (1, 2, 2, 5), (2 ** k - 3, 2, 4, 7)]
-        for mat in (mats[:1] if quick and lvl != 1 else mats):
-            chall = rng.bits(64 * c["nw"] - 8)
-            d = dict(Are=pd["Are"], Aim=pd["Aim"], Cre=1, Cim=0, bt=0, trl=0, m00=mat[0], m01=mat[1], m10=mat[2], m11=mat[3],
-                     chall=chall, chall_b=0, ha0=pd["h0"], ha1=pd["h1"], hc0=0, hc1=0)
-            msg = "69736f74726f7079"
-            for attempt in range(3):
-                st, o, err = vc.run_lines(drivers[(lvl, variant)], [vc.verify_line(variant, pk, vc.sig_tokens(variant, d), msg)], 120)
-                if st != "ok":
-                    break
-                a = vc.parse_kv(o[0]).get("Achall", "-")
+        fB = c["resp"] + 2 if variant == "dim2" else c["f"]
+        h6 = _hints(exe, 6, 0, fB)
+        auxes = [("pk", pd["Are"], pd["Aim"], pd["h0"], pd["h1"])]
+        if h6:
+            auxes += [("A=6", 6, 0, h6[0], h6[1]), ("A=6,hint_aux[0]+1", 6, 0, h6[0] + 1, h6[1])]
+        msg = "666f726765642023%02x" % lvl
+        # j-invariant bytes of the public key (any run reports them)
+        st, o, err = vc.run_lines(exe, [vc.verify_line(variant, pk, hs[0]["sig"], "00")], 120)
+        jpk = vc.parse_kv(o[0])["jpk"] if o else None
+        pre = vc.challenge_py(lvl, variant, "00" * (len(jpk) // 2), jpk, msg) if jpk else 1
+        fams = dim2_families(fB) if variant == "dim2" else None
+        trls = (0, 1, 3) if (lvl == 1 or not quick) else (0, 1)
+        for trl in trls:
+            for an, are, aim, ha0, ha1 in (auxes if (lvl == 1 or not quick) else auxes[:2]):
+                for fi, (fl, fam) in enumerate(fams if fams else heur_families(lvl, trl)):
+                    if quick and lvl != 1 and fi not in (0, 2, 3):
+                        continue
+                    if an != "pk" and trl == 3:
+                        continue
+                    for start in ("pre", "rand"):
+                        if start == "rand" and (fi not in (0, 3, 8) or an == "A=6,hint_aux[0]+1"):
+                            continue
+                        jobs.append((lvl, variant, exe, pk, msg, trl, an, are, aim, ha0, ha1, fl, fam, start,
+                                     pre if start == "pre" else rng.bits(64 * c["nw"] - 9) | 1))
+
+    def one(job):
+        lvl, variant, exe, pk, msg, trl, an, are, aim, ha0, ha1, fl, fam, start, chall = job
+        c = vc.CONST[lvl]
+        res = []
+        if variant == "dim2":
+            d = dict(Are=are, Aim=aim, Cre=1, Cim=0, bt=0, trl=trl, m00=fam[0], m01=fam[1], m10=fam[2], m11=fam[3], chall=chall, chall_b=0,
+                     ha0=ha0, ha1=ha1, hc0=0, hc1=0)
+        else:
+            d = dict(Are=are, Aim=aim, Cre=1, Cim=0, trl=trl, ha0=ha0, ha1=ha1, x=chall % (2 ** c["hc"]), hint_b=0)
+            d.update(fam)
+        for attempt in range(3):
+            if variant == "dim2":
+                st, o, err = vc.run_lines(exe, [vc.verify_line(variant, pk, vc.sig_tokens(variant, d), msg)], 120)
+                a = vc.parse_kv(o[0]).get("Achall", "-") if (st == "ok" and o) else "-"
                 if a == "-":
                     break
-                st, o, err = vc.run_lines(drivers[(lvl, variant)], ["hints %s %s %d" % (a.split(",")[0], a.split(",")[1], k)], 120)
-                if st != "ok":
+                hc = _hints(exe, int(a.split(",")[0], 16), int(a.split(",")[1], 16), c["resp"] + 2)
+                if not hc:
                     break
-                d["hc0"], d["hc1"] = int(o[0].split()[1]), int(o[0].split()[2])
-                sig = vc.sig_tokens(variant, d)
-                st, o, err = vc.run_lines(drivers[(lvl, variant)], [vc.verify_line(variant, pk, sig, msg)], 120)
-                kv = vc.parse_kv(o[0]) if o else {"stderr": err[-600:]}
-                out.append(((lvl, variant, "invertible %s|pk|valid hints|fit#%d" % (str(mat[:2]), attempt), "forgery", pk, sig, msg), (st, kv)))
-                if st != "ok" or kv.get("H", "-") == "-":
+                d["hc0"], d["hc1"] = hc
+            sig = vc.sig_tokens(variant, d)
+            st, o, err = vc.run_lines(exe, [vc.verify_line(variant, pk, sig, msg)], 120)
+            kv = vc.parse_kv(o[0]) if o else {"stderr": err[-600:]}
+            res.append(((lvl, variant, "%s|E_aux %s|trl=%d|valid hints|%s#%d" % (fl, an, trl, start, attempt), "forgery", pk, sig, msg), (st, kv)))
+            if st != "ok" or kv.get("v") == "1" or kv.get("H", "-") == "-":
+                break
+            H = int(kv["H"], 16)
+            if variant == "dim2":
+                if d["chall"] == H:
                     break
-                d["chall"] = int(kv["H"], 16)
+                d["chall"] = H
+            else:
+                if d["x"] == H % (2 ** c["hc"]):
+                    break
+                d["x"] = H % (2 ** c["hc"])
+        return res
+    out = []
+    for r in vc.pmap(one, jobs):
+        out += r
     return out
 
 
@@ -223,6 +301,9 @@ def evaluate(ctx, results, hist, honest_jcom=None):
                                 "repr": "a tampered signature with a different recomputed commitment is still accepted",
                                 "other-pk": "signature accepted under another public key",
                                 "other-msg": "signature accepted for another message"}[cls], replay)
+        if accepted and kv.get("deg") == "1":
+            ctx.violation("C02:%s:lvl%d:degenerate-commitment-accepted:%s" % (variant, lvl, label.split("|")[0][:60]),
+                          "accepted although the recomputed commitment is not a curve (C = 0, encoded j = 0: the challenge is computable in advance)", replay)
         if cls == "honest" and not accepted:
             ctx.violation("C02:%s:lvl%d:honest-rejected" % (variant, lvl), "honest signature rejected", replay)
         if mk.get("v") != v or str(mk.get("stage")) != str(vc.c_stage(kv)):
@@ -235,7 +316,13 @@ def evaluate(ctx, results, hist, honest_jcom=None):
 
 
 def search(ctx, drivers, honest):
-    """failing-input search when a proof obligation broke: the zero-matrix construction with fitted challenge"""
+    """failing-input search when a proof obligation broke: kernel families with valid hints (one per kernel-order test),
+    then the zero-matrix construction with fitted challenge"""
+    for it, (st, kv) in family_constructions(ctx, drivers, honest, ctx.rng.fork("c02-search"), True, levels=[1]):
+        if st == "ok" and kv.get("v") == "1":
+            return ("C02:%s:lvl%d:forgery:%s" % (it[1], it[0], it[2]), "a signature assembled from public data alone is accepted",
+                    dict(level=it[0], variant=it[1], probe=it[2], probe_class="forgery", pk=it[4], sig=it[5], msg=it[6], tapped=kv,
+                         how_to_replay="tools/harness/drv_verify.c: " + vc.verify_line(it[1], it[4], it[5], it[6])))
     for (lvl, variant), hs in sorted(honest.items()):
         if not hs:
             continue
@@ -310,6 +397,13 @@ def run(ctx):
             ctx.case("gen-failed:%s:lvl%d" % (variant, lvl))
             continue
         honest.setdefault((lvl, variant), []).append(g)
+    # the chall_b = 1 re-encoding needs an honest signature with an odd challenge: draw further level-1 keys until one exists
+    if (1, "dim2") in honest and not any(vc.sig_dict("dim2", h["sig"])["chall"] % 2 for h in honest[(1, "dim2")]):
+        for _ in range(12):
+            g = vc.gen(drivers[(1, "dim2")], "dim2", "%096x" % sr.bits(384), "%064x" % sr.bits(256))
+            if g["status"] == "ok" and g.get("ok") == 1 and vc.sig_dict("dim2", g["sig"])["chall"] % 2:
+                honest[(1, "dim2")].insert(0, g)
+                break
     proved = vlib.proof_stage(ctx, ["SqiProps.C02"], searcher=lambda: search(ctx, drivers, honest))
     ctx.lake(["driver"])
     nist_api(ctx, build)
@@ -324,9 +418,11 @@ def run(ctx):
             R.add(lvl, variant, "honest", "honest", pk, sig, msg)
             tam = tamperings(rr, lvl, variant, sig)
             if quick and lvl != 1:
-                tam = [t for i, t in enumerate(tam) if i % 3 == n % 3]
+                tam = [t for i, t in enumerate(tam) if i % 3 == n % 3 or "re-encoding" in t[0]]
             for label, cls, s2 in tam:
                 R.add(lvl, variant, label, cls, pk, s2, msg)
+                if "re-encoding" in label:
+                    R.add(lvl, variant, label + ", other message", "other-msg", pk, s2, "6f74686572206d657373616765")
             other = hs[(n + 1) % len(hs)]
             if other is not h:
                 R.add(lvl, variant, "other pk", "other-pk", other["pk"], sig, msg)
@@ -368,11 +464,12 @@ def run(ctx):
     d1, e1 = evaluate(ctx, first, hist)
     second = R2.run()
     d2, e2 = evaluate(ctx, second, hist)
-    third = valid_hint_constructions(ctx, drivers, honest, ctx.rng.fork("c02-iso"), quick)
+    third = family_constructions(ctx, drivers, honest, ctx.rng.fork("c02-iso"), quick)
     d3, e3 = evaluate(ctx, third, hist)
     n_dis += d1 + d2 + d3
     examples += e1 + e2 + e3
-    ctx.coverage["valid_hint_constructions"] = {"runs": len(third), "stages": sorted({vc.c_stage(kv) for _, (st, kv) in third if st == "ok"})}
+    ctx.coverage["valid_hint_family_constructions"] = {"runs": len(third), "stages": {str(k): sum(1 for _, (st, kv) in third if st == "ok" and vc.c_stage(kv) == k) for k in range(5)},
+                                                       "degenerate_commitments_seen": sum(1 for _, (st, kv) in third if st == "ok" and kv.get("deg") == "1")}
     total = len(results) + len(first) + len(second) + len(third)
     ctx.obligation("correspondence protocols_verif verdict+stage vs decision model (%d runs)" % total, n_dis == 0, json.dumps(examples[:4])[:700])
     if n_dis and not ctx.violations:
